@@ -320,7 +320,7 @@ func (m *MonC03) OnEnd(w *World) []Violation {
 					// for a resource the client held and dropped is C02's stray event)
 					ever := false
 					for _, h := range c.Ref.Handovers {
-						if h.RID == ev.RID && h.T < ev.T {
+						if h.RID == ev.RID && h.T < ev.T && !(h.Req != nil && h.Req.Action == "get") {
 							ever = true
 							break
 						}
